@@ -694,6 +694,28 @@ func init() {
 			}
 			return false
 		},
+		"sync/atomic.StorePointer": func(fr *frame, a []value) value { *a[0].(*value) = a[1]; return nil },
+		"sync/atomic.LoadPointer":  func(fr *frame, a []value) value { return *a[0].(*value) },
+		"sync/atomic.SwapPointer": func(fr *frame, a []value) value {
+			p := a[0].(*value)
+			old := *p
+			*p = a[1]
+			return old
+		},
+		"sync/atomic.CompareAndSwapPointer": func(fr *frame, a []value) value {
+			p := a[0].(*value)
+			if (*p).(unsafe.Pointer) == a[1].(unsafe.Pointer) {
+				*p = a[2]
+				return true
+			}
+			return false
+		},
+		"sync/atomic.SwapInt32": func(fr *frame, a []value) value {
+			p := a[0].(*value)
+			old := *p
+			*p = a[1]
+			return old
+		},
 		"sync/atomic.AddUint64": func(fr *frame, a []value) value {
 			p := a[0].(*value)
 			*p = (*p).(uint64) + a[1].(uint64)
@@ -809,6 +831,42 @@ func init() {
 			}
 			return iface{}
 		},
+		// echo's default logger (gommon/log) builds a fasttemplate with unsafe
+		// tricks; logging is irrelevant to C16: log.New returns a zero Logger.
+		"github.com/labstack/gommon/log.New": func(fr *frame, a []value) value {
+			pk := fr.i.prog.ImportedPackage("github.com/labstack/gommon/log")
+			cell := zero(pk.Type("Logger").Type())
+			return &cell
+		},
+		"github.com/mattn/go-isatty.IsTerminal":       func(fr *frame, a []value) value { return false },
+		"github.com/mattn/go-isatty.IsCygwinTerminal": func(fr *frame, a []value) value { return false },
+		// echo serialises JSON bodies with encoding/json + reflection; the body is
+		// irrelevant to C16: Serialize(c, v, indent) writes "{}" to c.Response().
+		"(github.com/labstack/echo/v4.DefaultJSONSerializer).Serialize": func(fr *frame, a []value) value {
+			c := a[1].(iface)
+			if m := fr.i.findMethod(c.t, "Response"); m != nil {
+				resp := call(fr.i, fr, token.NoPos, m, []value{c.v})
+				if wm := fr.i.prog.LookupMethod(types.NewPointer(fr.i.prog.ImportedPackage("github.com/labstack/echo/v4").Type("Response").Type()), nil, "Write"); wm != nil {
+					call(fr.i, fr, token.NoPos, wm, []value{resp, []value{byte('{'), byte('}')}})
+				}
+			}
+			return iface{}
+		},
+		"github.com/gofiber/fiber/v2/utils.UnsafeString": bytesToString,
+		"github.com/gofiber/fiber/v2/utils.UnsafeBytes":  stringToBytes,
+		"github.com/valyala/fasthttp.b2s":                bytesToString,
+		"github.com/valyala/fasthttp.s2b":                stringToBytes,
+		"sort.Slice":       sortSlice,
+		"sort.SliceStable": sortSlice,
+		// wall clock: a fixed instant (nothing in the claims depends on time)
+		"time.runtimeNano": func(fr *frame, a []value) value { return int64(1) },
+		"time.now":         func(fr *frame, a []value) value { return tuple{int64(1700000000), int32(0), int64(1)} },
+		"time.runtimeNow":  func(fr *frame, a []value) value { return tuple{int64(1700000000), int32(0), int64(1)} },
+		"time.Since": func(fr *frame, a []value) value { return int64(0) },
+		// fiber renders JSON through the configured encoder (encoding/json +
+		// reflection); the body is irrelevant to C16: Ctx.JSON(v) succeeds.
+		"(*github.com/gofiber/fiber/v2.Ctx).JSON": func(fr *frame, a []value) value { return iface{} },
+		"os.Getwd": func(fr *frame, a []value) value { return tuple{"/", iface{}} },
 		"log/slog.Error": func(fr *frame, a []value) value { return nil },
 		"log/slog.Warn":  func(fr *frame, a []value) value { return nil },
 		"log/slog.Info":  func(fr *frame, a []value) value { return nil },
@@ -904,6 +962,45 @@ func init() {
 	for _, k := range []string{"(*sync.Mutex).Lock", "(*sync.Mutex).Unlock", "(*sync.RWMutex).Lock", "(*sync.RWMutex).Unlock", "(*sync.RWMutex).RLock", "(*sync.RWMutex).RUnlock"} {
 		externals[k] = hit(k, externals[k])
 	}
+}
+
+// sortSlice: stable insertion sort driven by the program's less function
+// (sort.Slice uses reflectlite.Swapper, which the VM does not model).
+func sortSlice(fr *frame, a []value) value {
+	xs, ok := a[0].(iface).v.([]value)
+	if !ok {
+		panic(vmUnsupported("sort.Slice on a non-slice"))
+	}
+	n := len(xs)
+	// sort a permutation first: less(i, j) refers to current positions, so
+	// apply swaps on the real slice as insertion sort does
+	for i := 1; i < n; i++ {
+		for j := i; j > 0; j-- {
+			if !call(fr.i, fr, token.NoPos, a[1], []value{j, j - 1}).(bool) {
+				break
+			}
+			xs[j], xs[j-1] = xs[j-1], xs[j]
+		}
+	}
+	return nil
+}
+
+func bytesToString(fr *frame, a []value) value {
+	bs := a[0].([]value)
+	b := make([]byte, len(bs))
+	for k := range bs {
+		b[k] = bs[k].(byte)
+	}
+	return string(b)
+}
+
+func stringToBytes(fr *frame, a []value) value {
+	str := a[0].(string)
+	b := make([]value, len(str))
+	for k := range b {
+		b[k] = str[k]
+	}
+	return b
 }
 
 func (c *vmCtx) poll() {
